@@ -37,8 +37,8 @@ Deliberately left out (and why)
 
 Input classes that fail on the unchanged tree are confined to scope `corner` (so that the
 large scopes stay informative) and are reported there with pinned witnesses:
-  - TreeArray(use_tree_weights=False) still weights (the flag is not forwarded to its
-    SplitDistribution): freq.value / freq.getitem / consensus.support / consensus.below-threshold
+  - (repaired in /repo meanwhile, cee52ed6, cases kept) TreeArray(use_tree_weights=False) still weighted (the flag was not
+    forwarded to its SplitDistribution): freq.value / freq.getitem / consensus.support / consensus.below-threshold
     with `use_tree_weights=False` on the TreeArray / TreeList.consensus routes;
   - an unrooted 2-leaf tree counts its only split twice (frequency 2.0);
   - (repaired in /repo meanwhile, cases kept) an unrooted tree with a unifurcation at the root or
